@@ -192,6 +192,19 @@ reg("C11", "exploration",
     "DESIGN.md section 3, C11")
 
 
+reg("C09", "fault_enumeration",
+    "Fault enumeration by an on-path attacker: for authentic responses of the reference agent to MD5/SHA-1 x authNoPriv/authPriv users "
+    "(get, getnext, walk continuation in quick; all seven operations, both walk positions and response sizes crossing 127/128 and "
+    "255/256 in thorough) EVERY single-bit flip is delivered (exhaustive per base message), plus Hypothesis-generated structural "
+    "forgeries over msgFlags 0..7 x digest {none, zeros, original, truncated, 13 octets, garbage, re-signed with another password / "
+    "hash / cut short} x user name x engine id x payload {attacker bindings in clear, authentic plaintext in clear, original body, "
+    "garbage ciphertext, Reports with usmStats / arbitrary / no bindings and error-status 0/2/5}. Oracle: the call raises, or returns "
+    "exactly what the authentic response carried; an unauthenticated Report may only ever produce an exception.",
+    "Runs under the x690 indefinite-length guard (known finding of C20, hits counted) with a CPU alarm per delivery; no cryptanalysis of HMAC-96; replay of old authentic responses is out of the listed scope.",
+    "exhaustive single-bit fault enumeration + Hypothesis-generated structural forgeries (man in the middle)",
+    "DESIGN.md section 3, C09")
+
+
 def main():
     present = sorted(os.path.basename(p)[:3].upper()
                      for p in glob.glob(os.path.join(VERIF, "checks", "c[0-9][0-9]_*.py")))
